@@ -71,7 +71,10 @@ type upSpec struct {
 	// Fail: the upstream exchange does not produce a response: "error" (the
 	// terminal returns an error), "noresp" (returns nil without a response),
 	// "timeout" (blocks until the client's context is cancelled).
-	Fail    string `json:"fail,omitempty"`
+	Fail string `json:"fail,omitempty"`
+	// EchoECS: the upstream echoes the ECS option(s) of the query it received
+	// (scope = source mask) in its OPT, like an ECS-aware resolver.
+	EchoECS bool   `json:"echo_ecs,omitempty"`
 	GlueTTL uint32 `json:"glue_ttl"`
 }
 
@@ -154,11 +157,29 @@ func (c *clientCase) replyBytes(upQuery *wire.Msg) []byte {
 		}
 		b.RR(1, qn, 6, qc, u.TTL, rd)
 	}
+	opts := u.Opts
+	if u.EchoECS && len(opts) > 0 {
+		// like a real ECS-aware upstream: echo the ECS option of the query it
+		// received, with the scope filled in, in its (last) OPT
+		opts = append([]optSpec(nil), u.Opts...)
+		last := opts[len(opts)-1]
+		last.Options = append([]wire.Option(nil), last.Options...)
+		for _, qo := range upQuery.OPTs() {
+			for _, x := range qo.Options {
+				if x.Code == 8 && len(x.Data) >= 4 {
+					d := append([]byte(nil), x.Data...)
+					d[3] = d[2]
+					last.Options = append(last.Options, wire.Option{Code: 8, Data: d})
+				}
+			}
+		}
+		opts[len(opts)-1] = last
+	}
 	placed := false
 	for i := 0; i <= u.Glue; i++ {
 		if i == u.OptPos {
-			for k := range u.Opts {
-				u.Opts[k].appendTo(b)
+			for k := range opts {
+				opts[k].appendTo(b)
 			}
 			placed = true
 		}
@@ -167,8 +188,8 @@ func (c *clientCase) replyBytes(upQuery *wire.Msg) []byte {
 		}
 	}
 	if !placed {
-		for k := range u.Opts {
-			u.Opts[k].appendTo(b)
+		for k := range opts {
+			opts[k].appendTo(b)
 		}
 	}
 	return b.Bytes()
@@ -298,9 +319,17 @@ func (c *chainDesc) namedUp() map[uint16]bool {
 // namedDown: codes that a forwarding plugin anywhere in the chain names for the
 // upstream->client direction (forward_edns0opt copies on the way back even when
 // it sits after the terminal; ecs_handler forward copies the upstream's ECS).
-func (c *chainDesc) namedDown() map[uint16]bool {
+//
+// ecs_handler hands the upstream's ECS back only for a client whose own ECS it
+// forwarded: code 8 is named by it only when the client sent an ECS
+// (generating one from preset / send is not forwarding).
+func (c *chainDesc) namedDown(clientHasECS bool) map[uint16]bool {
 	if c.Branch != nil {
-		return c.Branch.named()
+		m := c.Branch.named()
+		if !clientHasECS && c.Branch.EcsForward {
+			delete(m, 8)
+		}
+		return m
 	}
 	m := map[uint16]bool{}
 	for _, l := range [][]elem{c.Pre, c.Post} {
@@ -311,7 +340,7 @@ func (c *chainDesc) namedDown() map[uint16]bool {
 					m[k] = true
 				}
 			case "ecs_handler":
-				if e.Forward {
+				if e.Forward && clientHasECS {
 					m[8] = true
 				}
 			}
@@ -606,6 +635,19 @@ func genCase(r *rand.Rand, ch *chainDesc, idx, phase int, names []string) *clien
 	if !ch.RealForward && r.Intn(40) == 0 {
 		u.TC = true
 	}
+	if len(u.Opts) > 0 && r.Intn(3) == 0 {
+		u.EchoECS = true
+		if r.Intn(2) == 0 { // echo only: no other ("different") ECS in the reply
+			last := &u.Opts[len(u.Opts)-1]
+			keep := []wire.Option{}
+			for _, x := range last.Options {
+				if x.Code != 8 {
+					keep = append(keep, x)
+				}
+			}
+			last.Options = keep
+		}
+	}
 	if ch.Inject && r.Intn(3) == 0 {
 		o := genUpOpt(r, true)
 		c.Inject = &o
@@ -671,10 +713,15 @@ func genChain(seed int64, idx, ncases int, realForward bool, multiOpt bool) *cha
 		if r.Intn(10) < 5 {
 			e := elem{Kind: "ecs_handler", Tag: fmt.Sprintf("ecsh%d", nEH)}
 			nEH++
-			e.Forward = r.Intn(2) == 0
-			e.Send = r.Intn(2) == 0
-			if r.Intn(3) == 0 {
-				e.Preset = presets[r.Intn(len(presets))]
+			// all combinations forward x send x preset{none, v4, v6 (incl. v4-mapped)}
+			combo := r.Intn(12)
+			e.Forward = combo&1 != 0
+			e.Send = combo&2 != 0
+			switch combo >> 2 {
+			case 1:
+				e.Preset = []string{presets[0], presets[3]}[r.Intn(2)]
+			case 2:
+				e.Preset = []string{presets[1], presets[2]}[r.Intn(2)]
 			}
 			e.Mask4 = []int{0, 8, 24, 32, 17}[r.Intn(5)]
 			e.Mask6 = []int{0, 32, 56, 128, 61}[r.Intn(5)]
